@@ -44,6 +44,12 @@ fn le_number(data: &[u8]) -> String {
     digits.iter().rev().map(|d| (b'0' + d) as char).collect()
 }
 
+/// get / set / push_back use unaligned 8-byte loads and stores at byte bits * idx / 8: the allocation has to carry the one of the last
+/// field (the checked static reader says whether it does).  Without it the next read is undefined behaviour, not a value.
+pub fn min0_carries_last_load(v: &UintVecMin0) -> bool {
+    v.size() == 0 || v.uintbits() > 58 || UintVecMin0::fast_get(v.data(), v.uintbits(), v.uintmask(), v.size() - 1).is_ok()
+}
+
 /// One history on a single UintVecMin0.  Operations 0..=7 are the ones the Coq model knows (new, set, get, push_back, resize,
 /// clear, build_from_usize, dump); 8.. are judged by the shadow only (get2, back, shrink_to_fit, resize_with_uintbits,
 /// resize_with_wire_max_val, the static fast_get, build_from_u32 / build_from_i32 as the start of a history, Default,
@@ -60,6 +66,7 @@ fn min0_history(cx: &mut Ctx, ops: &[(u32, Vec<u64>)], force: bool) {
     let mut obs: Vec<String> = vec![];
     let mut wide = false;
     let mut unmodelled = false;
+    let mut cap: u64 = 0; // the largest value the vector was told it has to hold (new / build_from / push_back / resize_with_*)
     for (op, a) in ops {
         let a0 = a.get(0).copied().unwrap_or(0) as usize;
         let a1 = a.get(1).copied().unwrap_or(0) as usize;
@@ -70,19 +77,21 @@ fn min0_history(cx: &mut Ctx, ops: &[(u32, Vec<u64>)], force: bool) {
         let mut bad: Option<String> = None;
         let known = |s: &Vec<Option<u64>>, i: usize, x: usize| -> bool { match s.get(i) { Some(Some(w)) => *w == x as u64, _ => true } };
         let r: Result<String, String> = match op {
-            0 => guarded(|| { let nv = UintVecMin0::new(a0, a1); nv }).map(|nv| { v = nv; shadow = vec![Some(0); a0]; "[0]%Z".to_string() }),
-            1 => { let mut v2 = v.clone(); guarded(move || { v2.set(a0, a1); v2 }).map(|nv| { v = nv; if a0 < shadow.len() { shadow[a0] = Some(a1 as u64); } "[0]%Z".to_string() }) }
+            0 => { must_refuse = Some(false); guarded(|| { let nv = UintVecMin0::new(a0, a1); nv }).map(|nv| { v = nv; shadow = vec![Some(0); a0]; cap = a1 as u64; "[0]%Z".to_string() }) }
+            1 => { // a value the vector was sized for, at an index below the size, has to be stored; beyond the field mask it is refused
+                   must_refuse = if a0 < n && (a1 as u64) <= cap { Some(false) } else { None };
+                   let mut v2 = v.clone(); guarded(move || { v2.set(a0, a1); v2 }).map(|nv| { v = nv; if a0 < shadow.len() { shadow[a0] = Some(a1 as u64); } "[0]%Z".to_string() }) }
             2 => { let v2 = v.clone(); let r = guarded(move || v2.get(a0));
                    must_refuse = Some(a0 >= n);
                    if let Ok(x) = &r { if !known(&shadow, a0, *x) { bad = Some(format!("get({}) = {} but a Vec holds {:?}", a0, x, shadow[a0])); } }
                    r.map(|x| format!("[0; {}]%Z", x)) }
-            3 => { let mut v2 = v.clone(); guarded(move || { v2.push_back(a0); v2 }).map(|nv| { v = nv; shadow.push(Some(a0 as u64)); "[0]%Z".to_string() }) }
-            4 => { let mut v2 = v.clone(); guarded(move || { v2.resize(a0); v2 }).map(|nv| { v = nv;
+            3 => { must_refuse = Some(false); let mut v2 = v.clone(); guarded(move || { v2.push_back(a0); v2 }).map(|nv| { v = nv; shadow.push(Some(a0 as u64)); cap = cap.max(a0 as u64); "[0]%Z".to_string() }) }
+            4 => { must_refuse = Some(false); let mut v2 = v.clone(); guarded(move || { v2.resize(a0); v2 }).map(|nv| { v = nv;
                        shadow.resize(a0, None); // bits beyond the old size are whatever memory held
                        "[0]%Z".to_string() }) }
-            5 => { v.clear(); shadow.clear(); Ok("[0]%Z".to_string()) }
-            6 => { let src: Vec<usize> = a.iter().map(|&x| x as usize).collect();
-                   guarded(|| UintVecMin0::build_from_usize(&src)).map(|(nv, mn)| { v = nv; shadow = src.iter().map(|&x| Some((x - mn) as u64)).collect(); format!("[0; {}]%Z", mn) }) }
+            5 => { v.clear(); shadow.clear(); cap = 0; Ok("[0]%Z".to_string()) }
+            6 => { let src: Vec<usize> = a.iter().map(|&x| x as usize).collect(); must_refuse = Some(false);
+                   guarded(|| UintVecMin0::build_from_usize(&src)).map(|(nv, mn)| { v = nv; shadow = src.iter().map(|&x| Some((x - mn) as u64)).collect(); cap = shadow.iter().map(|x| x.unwrap()).max().unwrap_or(0); format!("[0; {}]%Z", mn) }) }
             7 => Ok(format!("[{}; {}; {}; {}]%Z", v.size(), v.uintbits(), v.data().len(), le_number(v.data()))),
             8 => { let v2 = v.clone(); let r = guarded(move || v2.get2(a0));
                    must_refuse = Some(a0.checked_add(1).map_or(true, |j| j >= n));
@@ -92,7 +101,7 @@ fn min0_history(cx: &mut Ctx, ops: &[(u32, Vec<u64>)], force: bool) {
                    must_refuse = Some(n == 0);
                    if let Ok(x) = &r { if n > 0 && !known(&shadow, n - 1, *x) { bad = Some(format!("back() = {} but a Vec holds {:?}", x, shadow[n - 1])); } }
                    r.map(|_| String::new()) }
-            10 => { let mut v2 = v.clone(); guarded(move || { v2.shrink_to_fit(); v2 }).map(|nv| { v = nv; String::new() }) }
+            10 => { must_refuse = Some(false); let mut v2 = v.clone(); guarded(move || { v2.shrink_to_fit(); v2 }).map(|nv| { v = nv; String::new() }) }
             11 | 12 => { // second argument u64::MAX = "what the vector has now" (the same width / the same maximum)
                    let cur = a1 == usize::MAX;
                    let arg = if !cur { a1 } else if *op == 11 { v.uintbits() } else { v.uintmask() };
@@ -104,6 +113,7 @@ fn min0_history(cx: &mut Ctx, ops: &[(u32, Vec<u64>)], force: bool) {
                        if fresh { shadow = vec![Some(0); a0]; }                 // nothing was allocated: everything is zero, as after new()
                        else if same { shadow.resize(a0, None); }               // same field width: the common prefix keeps its values
                        else { shadow = vec![None; a0]; }                       // another width reinterprets the bits: not constrained
+                       cap = if *op == 12 { arg as u64 } else if bits >= 64 { u64::MAX } else { (1u64 << bits) - 1 };
                        String::new() }) }
             13 => { // the static reader over the raw bytes, as blob stores use it
                    if v.uintbits() > 58 { Ok(String::new()) } else {
@@ -113,11 +123,11 @@ fn min0_history(cx: &mut Ctx, ops: &[(u32, Vec<u64>)], force: bool) {
                               Err(_) => {} }
                    must_refuse = Some(false);
                    r.map(|_| String::new()) } }
-            14 => { let src: Vec<u32> = a.iter().map(|&x| x as u32).collect();
-                   guarded(|| UintVecMin0::build_from_u32(&src)).map(|(nv, mn)| { v = nv; shadow = src.iter().map(|&x| Some((x - mn) as u64)).collect(); String::new() }) }
-            15 => { let src: Vec<i32> = a.iter().map(|&x| x as u32 as i32).collect();
-                   guarded(|| UintVecMin0::build_from_i32(&src)).map(|(nv, mn)| { v = nv; shadow = src.iter().map(|&x| Some((x as i64 - mn as i64) as u64)).collect(); String::new() }) }
-            16 => { v = UintVecMin0::default(); shadow.clear(); Ok(String::new()) }
+            14 => { let src: Vec<u32> = a.iter().map(|&x| x as u32).collect(); must_refuse = Some(false);
+                   guarded(|| UintVecMin0::build_from_u32(&src)).map(|(nv, mn)| { v = nv; shadow = src.iter().map(|&x| Some((x - mn) as u64)).collect(); cap = shadow.iter().map(|x| x.unwrap()).max().unwrap_or(0); String::new() }) }
+            15 => { let src: Vec<i32> = a.iter().map(|&x| x as u32 as i32).collect(); must_refuse = Some(false);
+                   guarded(|| UintVecMin0::build_from_i32(&src)).map(|(nv, mn)| { v = nv; shadow = src.iter().map(|&x| Some((x as i64 - mn as i64) as u64)).collect(); cap = shadow.iter().map(|x| x.unwrap()).max().unwrap_or(0); String::new() }) }
+            16 => { v = UintVecMin0::default(); shadow.clear(); cap = 0; Ok(String::new()) }
             _ => { // housekeeping accessors between the operations; the allocation must still carry the 8-byte load of the last field
                    let (b, sz) = (v.uintbits(), v.size());
                    let _ = (v.mem_size(), v.uintmask(), UintVecMin0::compute_mem_size_by_max_val(v.uintmask(), sz));
@@ -145,6 +155,10 @@ fn min0_history(cx: &mut Ctx, ops: &[(u32, Vec<u64>)], force: bool) {
             cx.sum.fail(cell, None, cj.clone(), &format!("size {} but a Vec holds {}", v.size(), shadow.len()));
         }
         if v.is_empty() != shadow.is_empty() { cx.sum.fail(cell, None, cj.clone(), "is_empty wrong"); }
+        if !min0_carries_last_load(&v) {
+            cx.sum.fail(cell, None, cj.clone(), &format!("after op {} {:?}: the allocation of {} bytes does not carry the 8-byte load of the last of {} fields of {} bits", op, a, v.mem_size(), v.size(), v.uintbits()));
+            return; // reading on would be undefined behaviour
+        }
     }
     // model comparison is meaningful only where the model is defined (bits <= 58 paths, modelled operations)
     if !wide && !unmodelled && (force || (cx.shards.len() < cx.budget && cx.n_min0_coq < cx.cap_min0_coq)) {
